@@ -57,7 +57,7 @@ def C17_mvs_consistent_stmt : Prop :=
     tidy main (regOf mods) fuel = .ok ds →
     ∀ d ∈ ds, specSel (regOf mods) (ds.map (fun d => (d.mp, d.rank))) d.mp = d.rank
 
-/-- Witness W1 (harness: `root-below-selected`): main lists a v0.1.0 only; a requires b v0.1.0
+/-- Witness W1 (harness: `roots-graph-inconsistent`): main lists a v0.1.0 only; a requires b v0.1.0
 and c v0.1.0; c v0.1.0 requires b v0.2.0; tidy lists b v0.1.0, its own graph selects b v0.2.0. -/
 theorem C17_mvs_consistent_false : ¬ C17_mvs_consistent_stmt := by
   intro h
